@@ -2,6 +2,8 @@
 
 from __future__ import annotations
 
+import typing
+
 from .. import core, hist
 from ..session import Outcome
 from . import PropBase, steps_with_ids
@@ -24,7 +26,9 @@ def _world():
     m0.append({"d": "raw", "n": "VwB0", "src": "@dataclasses.dataclass\nclass VwB0:\n    a: int = 0\n"})
     m0.append({"d": "raw", "n": "VwB1", "src": "class VwB1(enum.Enum):\n    M0 = 1\n"})
     m0.append({"d": "raw", "n": "VwOuter", "src": "class VwOuter:\n    @dataclasses.dataclass\n    class VwInner:\n        a: int = 0\n"})
-    m1 = [{"d": "raw", "n": "VwB0", "src": "@dataclasses.dataclass\nclass VwB0:\n    b: str = ''\n"}]
+    m1 = [{"d": "raw", "n": "VwB0", "src": "@dataclasses.dataclass\nclass VwB0:\n    b: str = ''\n"},
+          # the first module's classes under other names, and the module itself under an alias
+          {"d": "raw", "n": "VwRenB1", "src": "from vw0 import VwB1 as VwRenB1, VwOuter as VwRenOuter\nimport vw0 as vwzero\n"}]
     for b, info in BASES.items():
         mod = info["module"] if info["module"].startswith("vw") else "vw0"
         tgt = m1 if mod == "vw1" else m0
@@ -167,6 +171,9 @@ class C16(PropBase):
         while len(steps) < n:
             c = rng.randrange(nctx)
             r = rng.random()
+            if r > 0.97:
+                steps.append({"op": "renamed_ref", "how": rng.choice(["renamed", "dotted", "outer"])})
+                continue
             if sw and steps and r < 0.15:
                 k = rng.choice([k for k in sw if k != "stack"] or ["clear"])
                 if k == "clear":
@@ -226,6 +233,22 @@ class C16(PropBase):
 
     def exec_op(self, sess, i, step):
         op = step["op"]
+        if op == "renamed_ref":
+            # a value stored only under a reference that spells the type differently from its own name (a renamed
+            # import, the module under an alias, a nested class through a renamed outer class); once the reference
+            # has been evaluated it names the type, and the type is found under it
+            from typelib import ctx
+            from typelib.py import refs
+
+            m0 = sess.world.modules["vw0"]
+            text, target = {"renamed": ("VwRenB1", m0.VwB1), "dotted": ("vwzero.VwB1", m0.VwB1), "outer": ("VwRenOuter.VwInner", m0.VwOuter.VwInner)}[step["how"]]
+            c = ctx.TypeContext()
+            ref = typing.ForwardRef(text, module="vw1")
+            c[ref] = "tokR"
+            refs.evaluate(ref)
+            got = [sess.guarded(lambda: c[target]), sess.guarded(lambda: c.get(target, "dflt")), sess.guarded(lambda: ref in c)]
+            sess.faults["fr_eval"] += 1
+            return Outcome(True, [g.value if g.ok else ["exc", type(g.exc).__name__] for g in got])
         if op == "fr_eval":
             from typelib.py import refs
 
@@ -284,6 +307,10 @@ class C16(PropBase):
 
     def check(self, sess, i, step, out):
         op = step["op"]
+        if op == "renamed_ref":
+            if out.value != ["tokR", "tokR", True]:
+                sess.violation("model-mismatch", i, {"how": step["how"], "got": repr(out.value)[:160], "model": "['tokR', 'tokR', True]"}, sig=f"renamed-reference:{step['how']}")
+            return
         if not op.startswith("ctx_"):
             return
         m = sess.models[step["ctx"]]
